@@ -55,6 +55,7 @@ class Model(object):
         self.rates = False
         self.calc = False
         self.zz = False
+        self.punch = True       # PRINT -selected_output
         self.incr = False       # INCREMENTAL_REACTIONS currently true
         self.so = set()
         self.temp = {}          # solution number -> temperature (for gas phases)
@@ -121,7 +122,7 @@ def selected_output(draw, M, n):
 def user_punch(draw, M, n):
     pool = list(PUNCH_EXPR)
     if M.calc:
-        pool += ['CALC_VALUE("cv1")'] * 4
+        pool += ['CALC_VALUE("cv1")'] * 12
     if M.zz:
         pool += ['TOT("Zz")', 'MOL("ZzCl")', 'SI("Zzite")', 'MOL("NaY")']
     items = draw(st.lists(st.sampled_from(pool), min_size=1, max_size=5))
@@ -258,14 +259,16 @@ def simulation(draw, M, k, nsim):
         P.append(db_additions(draw, not M.zz))
         F.add("db_additions" if not M.zz else "db_additions_redefined")
         M.zz = True
-    if _bool(draw, 1, 7):
-        v = draw(st.sampled_from(["true", "false"]))
+    if _bool(draw, 1, 9):
+        v = draw(st.sampled_from(["true", "false"] if not M.incr else ["false", "false", "true"]))
         P.append("INCREMENTAL_REACTIONS %s" % v)
         M.incr = v == "true"
         F.add("incremental_reactions")
-    if _bool(draw, 1, 8):
-        P.append("PRINT\n -selected_output %s" % draw(st.sampled_from(["false", "true", "false"])))
-        F.add("print_selected_output")
+    if _bool(draw, 1, 12 if M.punch else 3):
+        v = draw(st.sampled_from(["false", "true"] if M.punch else ["true", "true", "false"]))
+        P.append("PRINT\n -selected_output %s" % v)
+        M.punch = v == "true"
+        F.add("print_selected_output_" + v)
     if _bool(draw, 1, 12):
         P.append("PRINT\n -reset %s" % draw(st.sampled_from(["false", "true"])))
         F.add("print_reset")
@@ -279,7 +282,7 @@ def simulation(draw, M, k, nsim):
             F.add("selected_output_redefined" if n in M.so else "selected_output")
             if what in ("both", "so"):
                 P.append(selected_output(draw, M, n))
-                if _bool(draw, 1, 12):
+                if _bool(draw, 1, 20):
                     P[-1] += "\n -active %s" % draw(st.sampled_from(["false", "true"]))
                     F.add("selected_output_active")
             if what in ("both", "up"):
